@@ -4,19 +4,87 @@
                   with psi[K] = (1/P) sum_I (m-K-2I) conj(A[I]) A[I+K], psi~ Hermitian, for every order m >= 2,
                   every NFFT >= 2m (both parities); returns A = [1, a_burg] and the Burg reflection coefficients
  place.pminvar.*  the class folds it onto the reported axis
- The Musicus identity psi[K] = sum_i (R^-1)[i+K, i] (bounded exact algebra) is checked by the E3 engine when built.
+ musicus.*        (exact algebra, bounded) the statement's own definition: with the order m-1 Burg model parametrised by
+                  (r0, k_1..k_{m-1}) and handed to the real minvar through arburg's contract, and R the m x m Hermitian Toeplitz
+                  matrix of the autocorrelation that model implies, PSD[k] * (e(f_k)^H R^-1 e(f_k)) = sampling at every bin of an exact
+                  NFFT-point DFT -- i.e. the psi sequence the code builds IS the diagonal-sum sequence of R^-1 (Musicus)
 """
+from fractions import Fraction
+from pyvc import values as V
+from pyvc.values import Arr, Cx
+from pyvc.harness import Task
 from . import funcs, classes
+from .e3 import E3, e3_interp, ac_from_rc, names_for, ksyms
 
 META = {
     "level": "proof",
     "functions": ["spectrum.minvar.minvar", "spectrum.minvar.pminvar.__call__"],
     "assumptions": ["A-REAL; A-PY; A-DFT (periodisation identity, premises proved)",
                     "arburg enters by its contract (C13): (a, rho, ref) of order m-1",
-                    "Musicus identity (psi is the diagonal-sum sequence of R^-1 for the Toeplitz R implied by the Burg model) and "
-                    "positivity of the quadratic form: mathematics over the specification, not decided by this check"],
-    "trusted_base": [],
+                    "the identity PSD = T/(e^H R^-1 e) (Musicus: psi is the diagonal-sum sequence of R^-1 for the Toeplitz R implied by the "
+                    "Burg model) is decided by exact algebra at bounded sizes only (musicus.*: m <= 3 quick / 4 thorough, NFFT in {4, 6, 8, 12}); "
+                    "for larger m it remains mathematics over the specification. Positivity of the quadratic form (R positive definite "
+                    "for |k_i| < 1): not decided",
+                    "L-PARAM for musicus.*: the Burg model is parametrised by r0 > 0 and reflection coefficients; identities of Q(r0, k, T)"],
+    "trusted_base": ["sympy.polys (musicus.* only)"],
+    "bounded_note": "musicus.* tasks are bounded in m and NFFT; everything else is unbounded",
 }
+
+
+def _solve(Mx, b):
+    """exact solution of Mx y = b (generic path: non-zero pivots), entries Cx over the field"""
+    n = len(b)
+    A = [[V.Cx.of(v) for v in row] for row in Mx]
+    y = [V.Cx.of(v) for v in b]
+    for c in range(n):
+        for r in range(c + 1, n):
+            f = A[r][c] / A[c][c]
+            A[r] = [A[r][j] - f * A[c][j] for j in range(n)]
+            y[r] = y[r] - f * y[c]
+    x = [None] * n
+    for c in reversed(range(n)):
+        acc = y[c]
+        for j in range(c + 1, n):
+            acc = acc - A[c][j] * x[j]
+        x[c] = acc / A[c][c]
+    return x
+
+
+def musicus_task(cx, m, NFFT):
+    def run(tc):
+        p = m - 1
+        names = names_for(p, cx, extra=("T",)) + (["sqrt3"] if NFFT in (3, 6, 12) else []) + (["sqrt2"] if NFFT == 8 else []) + ["d0", "d1", "d2", "d3", "d4"]
+        seen = {}
+
+        def arburg_stub(I_, X, order, *rest, **kw):
+            seen["order"] = order
+            return (Arr.from_items([V.Cx.of(v) if cx else v for v in a], dtype="complex" if cx else "float"), P,
+                    Arr.from_items([V.Cx.of(v) if cx else v for v in ks], dtype="complex" if cx else "float"))
+        dom, I = e3_interp(tc, names, stubs={"spectrum.burg.arburg": arburg_stub})
+        E = E3(tc, dom, "musicus", {"m": m, "NFFT": NFFT, "complex": cx}, tc.seed)
+        ks = ksyms(dom, p, cx)
+        r0, T = dom.sym("r0"), dom.sym("T")
+        r, a, P = ac_from_rc(r0, ks)
+        data = Arr.from_items([dom.sym("d%d" % j) for j in range(5)], dtype="float")        # only handed on to arburg
+        v = E.run(I, lambda I_: I_.call_qual("spectrum.minvar.minvar", data, m, T, NFFT))
+        if v is None:
+            return
+        E.ok("uses-the-Burg-model-of-order-m-1", V.is_conc(seen.get("order")) and int(seen["order"]) == p, "arburg called with order %r" % (seen.get("order"),))
+        psd = v[0].to_list()
+        E.ok("NFFT-values", len(psd) == NFFT, "length %d" % len(psd))
+        if len(psd) != NFFT:
+            return
+        # R[i][j] = r[i-j] (i >= j), conj(r[j-i]) otherwise;  e_k[n] = exp(+2 pi i k n / NFFT)
+        R = [[V.Cx.of(r[i - j]) if i >= j else V.s_conj(V.Cx.of(r[j - i])) for j in range(m)] for i in range(m)]
+        for k in range(NFFT):
+            e = [dom.cis(k * n, NFFT) for n in range(m)]
+            y = _solve(R, e)
+            q = sum((V.s_conj(e[i]) * y[i] for i in range(m)), Cx(Fraction(0), Fraction(0)))
+            E.eq("PSD[%d]*(e^H R^-1 e)=sampling" % k, V.Cx.of(psd[k]) * q, Cx(T, Fraction(0)))
+        E.eq("returns-[1,a_burg]", [V.Cx.of(x) for x in v[1].to_list()], [Cx(Fraction(1), Fraction(0))] + [V.Cx.of(x) for x in a])
+        E.eq("returns-burg-reflection-coefficients", [V.Cx.of(x) for x in v[2].to_list()], [V.Cx.of(x) for x in ks])
+    return Task("musicus.%s.m%d.NFFT%d" % ("complex" if cx else "real", m, NFFT), run, kind="bounded", prerun=True, timeout=200,
+                functions=["spectrum.minvar.minvar"])
 
 
 def tasks(tier):
@@ -25,4 +93,8 @@ def tasks(tier):
         ts.append(funcs.minvar_task(dt))
         ts.append(classes.place_task("pminvar", dt))
         ts.append(funcs.grid_task("minvar", dt))
+    sizes = [(2, 4), (2, 6), (3, 6), (3, 8)] if tier == "quick" else [(2, 4), (2, 6), (2, 8), (3, 6), (3, 8), (3, 12), (4, 8), (4, 12)]
+    for cx in (False, True):
+        for (m, n) in sizes:
+            ts.append(musicus_task(cx, m, n))
     return ts
